@@ -11,6 +11,7 @@ mod cli;
 mod conc;
 mod driver;
 mod exec;
+mod fault;
 mod frag;
 mod frames;
 mod gen;
